@@ -68,6 +68,9 @@ class RefVM:
         self.logs.append(f'BareScript: Function "{name}" failed with error: {exc}')
 
     def run(self, model):
+        # includes resolve against the file whose statements are running; a function called from that file includes
+        # relative to it as well (only functions defined and called in the same file are generated)
+        self._bases = [self.base0]
         return self.exec(model['statements'], None, self.base0)
 
     def ev(self, e, loc):
@@ -124,7 +127,11 @@ class RefVM:
                         if type(exc).__name__ == 'BareScriptParserError':
                             raise IncludeParseError(url, exc) from exc
                         raise
-                    self.exec(model['statements'], None, url)
+                    self._bases.append(url)
+                    try:
+                        self.exec(model['statements'], None, url)
+                    finally:
+                        self._bases.pop()
             elif k == 'label':
                 pass
             else:
@@ -140,7 +147,7 @@ class RefVM:
                 loc[p] = list(args[i:])
             else:
                 loc[p] = args[i] if i < len(args) else None
-        return self.exec(f['statements'], loc, None)
+        return self.exec(f['statements'], loc, self._bases[-1] if getattr(self, '_bases', None) else None)
 
 
 class IncludeParseError(Exception):
